@@ -6,7 +6,7 @@ import itertools
 from fractions import Fraction
 
 from ..absint import FuncV, Interp, ObjV, VecV, State
-from ..forms import Const, Form, SliceV, TupleV, fpow, mk_attr, mk_fn, atom_children, subst_value
+from ..forms import Const, Form, SliceV, TupleV, const_float, fpow, mk_attr, mk_fn, atom_children, subst_value
 from ..rules import PI, S, find_raise_guards, names_in, check_late_binding
 from ..srcmodel import src_of, norm_src
 
@@ -27,6 +27,7 @@ EXPLANATION += (" Added after the audit wave: C13.5 the threshold returned by op
 EXPLANATION += (' Second audit wave: C13.10 (open known finding) the soft-decision error probability is not formed as 1 - quad(...) with an absolute tolerance (everything below 1.49e-8 is quadrature noise); C13.3 accepts the complement integrated directly (expm1/log1p/exp(k log w) are folded).')
 EXPLANATION += (' Third audit wave: C13.11 the threshold grid of utils.theory_BER starts on the OFF level, whose deviation is zero inside the stated ranges (T = 0, ER = inf, no ASE), so its first entry is Q(0/0): the reduction over that grid is nan-ignoring (nanmin) or the grid leaves out the level (r[1:], r[1:-1]); a plain min there returned nan for the whole error probability. C13.12 the objective whose minimiser ppm.THRESHOLD_EST returns is not written as a subtraction from one (syntactic root of the argmin argument, a local name or local function followed): 1 - P(correct) is exactly 0 below 1.1e-16, a plateau on the grid for mu1 - mu0 > 16.4 s, and argmin returns the first index of the plateau; C13.3 still decides that the objective equals the hard-decision symbol error (erfc(-u) = 2 - erfc(u), expm1, log1p and exp(k log w) are folded, so the accurate spelling and the direct one have one normal form).')
 EXPLANATION += (' C13.13 the minimiser ook.THRESHOLD_EST returns is the middle of the tie set flatnonzero(cost == min(cost)) (nanmin, where(...)[0], .size spellings accepted): for equal sigmas that is the midpoint even when both tails underflow, which the first of the tied grid points is not.')
+EXPLANATION += (' Fourth audit wave: C13.14 the quadrature of each soft-decision formula is split at the knee x = -dmu/s1 of its integrand (points= contains it): on the whole axis quad does not resolve a knee of width s0/s1 below 1e-2 and returns the s0 -> 0 limit at a shifted mu (0.7 - 3 % off, soft above hard). C13.3 accepts integration limits (-inf, inf) or constants beyond +-39. C13.10 now holds on the tree (repaired together with C13.14 by one helper that integrates the complement with epsabs = 0); the clause requires the complement form AND no absolute tolerance. C13.12 also reports a probability near one (Q of a non-positive argument on the grid, or 1 - Q of a non-negative one) used as the argument of a logarithm or the base of a power.')
 TRUSTED = ["scipy.special.erfc, scipy.integrate.quad semantics", "numpy.vectorize/linspace/argmin", "scipy.constants h, k, e, c", "utils.idb/idbm/Q (C19)"]
 
 H_ = Form.atom(("c", "scipy.constants.h"))
@@ -425,6 +426,11 @@ def rule_error_probabilities(ctx):
         if not roots:
             ctx.unknown("C13.12", fi, fi.node, "ppm.THRESHOLD_EST: objective expression", "argument of the argmin not found in the source")
         for node in roots:
+            for bad_node, how_ in _near_one_misuse(fi, node):
+                ctx.violation("C13.12", fi, bad_node, f"ppm.THRESHOLD_EST: a probability near one {how_}",
+                              f"`{src_of(bad_node)}` is within 1.1e-16 of one over the part of the grid where the optimum lies (it is the complement of a tail that has underflowed below the "
+                              "rounding of 1.0), so its logarithm is exactly 0 / its power exactly 1 there: the false-alarm term vanishes from the objective and argmin returns the first such "
+                              "grid point (8.30 instead of 8.5 for mu1 - mu0 = 17 s) - the tail itself has to enter through log1p(-tail) / expm1")
             ctx.check("C13.12", not _is_one_minus(node), fi, node, "ppm.THRESHOLD_EST: objective not formed by subtraction from one", "sum of tail probabilities (expm1/log1p form)",
                       "the objective is written 1 - P(correct): below 1.1e-16 it is exactly 0, so for mu1 - mu0 > 16.4 s (inside mu in (0, 20 s]) the grid holds a plateau of zeros and "
                       "argmin returns its first index - THRESHOLD_EST(mu0=0, mu1=17, s0=s1=1, M=2) = 8.304 where (M-1)N0 = N1 at 8.5 (20: 8.308 for 10)")
@@ -587,6 +593,20 @@ def _plateau_pick(ctx, fi, node, how, rule):
         ctx.unknown(rule, fi, node, label, f"position {pick!r} inside the tie set not recognised")
 
 
+def fallback_nan_safe(pkg):
+    """ppm.THRESHOLD_EST locates its minimum with a reduction that ignores undefined entries (nanargmin, or a tie set taken on
+    nanmin): True / False, None when the minimiser is not identified"""
+    fi = pkg.func("ppm.THRESHOLD_EST")
+    it = Interp(pkg, param_classes={"eye_obj": "eye"}, assumptions={"eye_obj": ("inst", "eye")})
+    rets = [o for o in it.run(fi) if o.kind == "return" and isinstance(o.value, Form)]
+    if len(rets) != 1:
+        return None
+    v = rets[0].value
+    if _grid_argmin(v, {}) is None:
+        return None
+    return _mentions_fn(v, "nanargmin") or (_mentions_fn(v, "nanmin") and not _mentions_fn(v, "argmin"))
+
+
 def rule_tied_minimisers(ctx, rule):
     """the clause above under another property's number (C03: ook.DSP returns the transmitted bits of a noise-free link)"""
     fi = ctx.pkg.func("ook.THRESHOLD_EST")
@@ -629,6 +649,57 @@ def _argmin_objective_roots(fi):
             arg = n.args[0] if n.args else (n.func.value if not (isinstance(n.func.value, ast.Name) and n.func.value.id in ("np", "numpy")) else None)
             if arg is not None:
                 out.extend(follow(arg))
+    return out
+
+
+def _near_one_misuse(fi, root):
+    """[(node, how)] for sub-expressions of the objective that are probabilities NEAR ONE on the grid - Q of a non-positive argument
+    ((mu0 - r)/s0 or (r - mu1)/s1 with r on linspace(mu0, mu1)), or 1 - Q of a non-negative one - and are used as the argument of a
+    logarithm or as the base of a power.  Which names are the levels and the grid is read from the function's own assignments"""
+    low, high, grid = set(), set(), set()
+    for n in ast.walk(fi.node):
+        if isinstance(n, ast.Assign) and len(n.targets) == 1 and isinstance(n.targets[0], ast.Name):
+            v = n.value
+            if isinstance(v, ast.Attribute) and v.attr == "mu0":
+                low.add(n.targets[0].id)
+            elif isinstance(v, ast.Attribute) and v.attr == "mu1":
+                high.add(n.targets[0].id)
+            elif isinstance(v, ast.Call) and isinstance(v.func, ast.Attribute) and v.func.attr == "linspace":
+                grid.add(n.targets[0].id)
+    nm = lambda x: x.id if isinstance(x, ast.Name) else (x.attr if isinstance(x, ast.Attribute) and x.attr in ("mu0", "mu1") else None)
+    is_low = lambda x: nm(x) in low or nm(x) == "mu0"
+    is_high = lambda x: nm(x) in high or nm(x) == "mu1"
+    is_grid = lambda x: isinstance(x, ast.Name) and x.id in grid
+
+    def tail_kind(c):
+        """'small' / 'one' for Q((a - b)/s) by the sign of a - b on the grid"""
+        if not (isinstance(c, ast.Call) and ((isinstance(c.func, ast.Name) and c.func.id == "Q") or (isinstance(c.func, ast.Attribute) and c.func.attr == "Q")) and len(c.args) == 1):
+            return None
+        a = c.args[0]
+        if isinstance(a, ast.BinOp) and isinstance(a.op, ast.Div):
+            a = a.left
+        if not (isinstance(a, ast.BinOp) and isinstance(a.op, ast.Sub)):
+            return None
+        x, y = a.left, a.right
+        if (is_grid(x) and is_low(y)) or (is_high(x) and is_grid(y)):
+            return "small"
+        if (is_low(x) and is_grid(y)) or (is_grid(x) and is_high(y)):
+            return "one"
+        return None
+
+    def near_one(e):
+        if tail_kind(e) == "one":
+            return True
+        one = lambda x: isinstance(x, ast.Constant) and isinstance(x.value, (int, float)) and not isinstance(x.value, bool) and x.value == 1
+        return isinstance(e, ast.BinOp) and isinstance(e.op, ast.Sub) and one(e.left) and tail_kind(e.right) == "small"
+    out = []
+    for n in ast.walk(root):
+        if isinstance(n, ast.Call) and isinstance(n.func, ast.Attribute) and n.func.attr in ("log", "log2", "log10") and n.args and near_one(n.args[0]):
+            out.append((n.args[0], "is the argument of a logarithm"))
+        if isinstance(n, ast.BinOp) and isinstance(n.op, ast.Pow) and near_one(n.left):
+            out.append((n.left, "is the base of a power"))
+        if isinstance(n, ast.Call) and isinstance(n.func, ast.Attribute) and n.func.attr in ("power", "float_power") and n.args and near_one(n.args[0]):
+            out.append((n.args[0], "is the base of a power"))
     return out
 
 
@@ -694,6 +765,22 @@ def _is_grid_minimum(ctx, it, v, fac, objective, grid_rec, off, on):
     return False
 
 
+def _mentions_value(v, target, depth=0):
+    """some value nested in v is the target, or has it as an additive part (subtracting it leaves fewer terms)"""
+    if depth > 6:
+        return False
+    if isinstance(v, Form):
+        if v == target or len((v - target).terms) < len(v.terms):
+            return True
+        return any(_mentions_value(c, target, depth + 1) for a in v.atoms(deep=False) for c in atom_children(a))
+    if isinstance(v, TupleV):
+        return any(_mentions_value(c, target, depth + 1) for c in v.items)
+    items = getattr(v, "items", None)
+    if isinstance(items, (list, tuple)):
+        return any(_mentions_value(c, target, depth + 1) for c in items)
+    return False
+
+
 def _check_soft(ctx, fi, it, v, node, case, dmu, s0, s1, M, factor):
     quads = [r for r in it.calls if r.callee == "scipy.integrate.quad"]
     if len(quads) != 1 or not isinstance(quads[0].args[0], FuncV):
@@ -710,7 +797,20 @@ def _check_soft(ctx, fi, it, v, node, case, dmu, s0, s1, M, factor):
               f"integrand {integ!r} differs from {want_int!r}"[:700])
     lo, hi = q.args[1] if len(q.args) > 1 else None, q.args[2] if len(q.args) > 2 else None
     inf = Form.atom(("c", "inf"))
-    ctx.check("C13.3", isinstance(lo, Form) and isinstance(hi, Form) and lo == -inf and hi == inf, fi, q.node, f"{case}: integration limits", "(-inf, inf)", "integration limits are not (-inf, inf)")
+    lo_c, hi_c = (const_float(lo) if isinstance(lo, Form) else None), (const_float(hi) if isinstance(hi, Form) else None)
+    whole = isinstance(lo, Form) and isinstance(hi, Form) and ((lo == -inf and hi == inf) or (lo_c is not None and hi_c is not None and lo_c <= -39 and hi_c >= 39))
+    ctx.check("C13.3", whole, fi, q.node, f"{case}: integration limits", "(-inf, inf), or constants beyond +-39 where exp(-x^2/2) is zero in double precision",
+              "integration limits do not cover the support of the Gaussian weight ((-inf, inf), or constants beyond +-39)")
+    # C13.14 the first factor of the integrand is a knee of width s0/s1 at x = -dmu/s1 (a step for a noise-free OFF level): the nodes of
+    # an adaptive Gauss-Kronrod rule on the whole axis do not find a knee narrower than about 1e-2, the error estimate still passes
+    # and the step is "snapped" to a node - the result is the s0 -> 0 limit at a shifted mu.  The interval has to be split there.
+    kw0 = dict(q.kwargs) if getattr(q, "kwargs", None) else {}
+    pts = kw0.get("points")
+    knee = -dmu / s1
+    ctx.check("C13.14", pts is not None and _mentions_value(pts, knee), fi, q.node, f"{case}: the quadrature is split at the knee x = -dmu/s1 of its integrand", "points= contains the knee",
+              "quad is left to find the knee of (1-Q((dmu+s1*x)/s0))^(M-1) at x = -dmu/s1 by itself: for s0 much smaller than s1 it does not - ppm.theory_BER(1.67, 1e-4, 1, 2, 'soft') = "
+              "0.047790 where Q(mu/sqrt(s0^2+s1^2)) = 0.047460 (and above the hard-decision value 0.047625); (2.99, 1e-4, 1) returns exactly Q(3), 3.2 % off; "
+              "utils.theory_BER(-48.95, 'ppm', M=4, decision='soft', T=0, r=0.1) = 2.48833e-2 > hard 2.48762e-2")
     I0 = Form.atom(("idx", q.result, Form.num(0)))
     want = factor * (1 - I0 / fpow(2 * PI, HALF)) if not complement else factor * I0 / fpow(2 * PI, HALF)
     if v != want and v == factor * mk_fn("max", [1 - I0 / fpow(2 * PI, HALF), Form.num(0)]):
@@ -726,13 +826,13 @@ def _check_soft(ctx, fi, it, v, node, case, dmu, s0, s1, M, factor):
     one_minus = not complement
     loose = epsabs is None or not (isinstance(epsabs, Form) and epsabs.is_zero())
     label = f"{case}: tail probability not formed as 1 - quadrature with an absolute tolerance"
-    if one_minus and loose:
+    if one_minus or loose:
         ctx.violation("C13.10", fi, q.node, label,
                       "the symbol error probability is 1 - quad(...)[0]/sqrt(2 pi) with quad's default absolute tolerance 1.49e-8: values below it are quadrature noise. "
                       "ppm.theory_BER(6, 0.02, 1, 2, 'soft') = 1.72e-9 where Q(mu/sqrt(s0^2+s1^2)) = 9.94e-10; theory_BER(6.5, 0.02, 1, 8): soft 6.26e-11 > hard 6.05e-11; "
                       "theory_BER(mu, 0.05, 1, 4, 'soft') rises from 3.55e-8 at mu = 5.26 to 5.53e-8 at mu = 5.28")
     else:
-        ctx.holds("C13.10", fi, q.node, label, "complement integrated directly / no absolute tolerance")
+        ctx.holds("C13.10", fi, q.node, label, "complement integrated directly, no absolute tolerance")
 
 
 def _eye():
